@@ -15,6 +15,7 @@ mod foreign_ecc;
 mod keycmp;
 mod native;
 mod poseidon;
+mod vector;
 mod zkirfam;
 
 use std::collections::BTreeMap;
@@ -201,6 +202,7 @@ fn main() {
             }
         }
         "biguint" => biguint::run_family(&spec, k, replay),
+        "vector" => vector::main_arm(spec, k, replay),
         _ => panic!("unknown family {family}"),
     }
 }
